@@ -5,6 +5,7 @@ import Tickit.Proof.WinFocusRestack
 import Tickit.Proof.WinFocusResize
 import Tickit.Proof.WinFocusMock
 import Tickit.Proof.WinFocusMockHist
+import Tickit.Proof.WinFocusRelink
 import Tickit.Gen.WinFocusSrc
 /-
   C15 — After a flush the terminal cursor reflects the focused window, or is hidden.
@@ -429,6 +430,43 @@ theorem hide_requests_counterexample : ¬ hide_requests_full Fixes.none := by
   revert this
   decide
 
+/-! ### the focus chain through `hide` / `show`, and the reposition of the focused window
+
+    The "focus chain" of the property is maintained by `show`, `hide` and REMOVE, not only by `take_focus`; these are the
+    rules (the driver evaluates them on the implementation's links before and after every show / hide / close). -/
+
+/-- `show` relinks: a window whose parent has no focused child is linked in whenever it carries a link or is focused
+    itself — in particular when the branch below it ends, however deep, in the focused window. -/
+theorem show_relinks (fx : Fixes) (t t' : Tree) (win p : Nat) (w pw : Win) (hwf : wfB t = true) (hw : Live t win w)
+    (hp : w.parent = some p) (hpw : Live t p pw) (hnone : pw.focusedChild = none)
+    (hlat : w.focusedChild.isSome = true ∨ w.isFocused = true) (hh : showWin fx t win = .ok t') :
+    ∃ pw', t'.wins[p]? = some pw' ∧ pw'.focusedChild = some win :=
+  showWin_relinks hwf hw hp hpw hnone hlat hh
+
+/-- `hide` then `show` of a visible window the focus chain runs through: every window is as before — every link and
+    flag — so the terminal cursor has to be what it had to be (and `restore_requested_show` makes the flush put it
+    there). -/
+theorem hide_show_roundtrip (fx : Fixes) (t t1 t2 : Tree) (win p : Nat) (w pw : Win) (hwf : wfB t = true)
+    (hwf1 : wfB t1 = true) (hw : Live t win w) (hv : w.isVisible = true) (hp : w.parent = some p) (hpw : Live t p pw)
+    (hl : pw.focusedChild = some win) (hlat : w.focusedChild.isSome = true ∨ w.isFocused = true)
+    (h1 : hideWin fx t win = .ok t1) (h2 : showWin fx t1 win = .ok t2) :
+    t2.wins = t.wins ∧ cursorSpec t2 = cursorSpec t :=
+  ⟨WinFocus.hide_show_roundtrip hwf hwf1 hw hv hp hpw hl hlat h1 h2,
+   cursorSpec_wins (WinFocus.hide_show_roundtrip hwf hwf1 hw hv hp hpw hl hlat h1 h2)⟩
+
+/-- `tickit_window_reposition` of a focused window requests the restore itself, wherever the cursor cell ends up (under a
+    sibling, outside the parent, in the open): no expose is needed for the cursor to follow the window. -/
+theorem restore_requested_reposition (t t' : Tree) (win : Nat) (w : Win) (top left : Int) (hw : Live t win w)
+    (hf : w.isFocused = true) (h : reposition t win top left = .ok t') : Requests t t' :=
+  .inl ⟨.inl (reposition_requests hw hf h).1, (reposition_requests hw hf h).2⟩
+
+/-- root 0 → 1 → 2 → 3, window 3 focused (history: three nested windows, `focus 3`, `flush`). -/
+def deepChainTree : Tree :=
+  { wins := #[{ rect := ⟨0, 0, 12, 30⟩, isRoot := true, children := [1], focusedChild := some 1 },
+              { rect := ⟨1, 2, 10, 28⟩, parent := some 0, children := [2], focusedChild := some 2 },
+              { rect := ⟨0, 0, 10, 27⟩, parent := some 1, children := [3], focusedChild := some 3 },
+              { rect := ⟨0, 0, 9, 26⟩, parent := some 2, isFocused := true }] }
+
 /-! ### the terminal changes its size
 
     `termResize` (Model/WinFocus.lean) transcribes `on_term_resize`, the root window's handler of the terminal's resize
@@ -830,5 +868,16 @@ example : ∃ s, runOpsMock Fixes.all { tree := newRoot 6 10, lines := 6, cols :
     [.newWin 0 ⟨1, 1, 3, 3⟩ false false false false, .curshape 1 3, .curblink 1 1, .curpos 1 1 1, .focus 1, .flush,
      .termResize 2 2, .flush] = .ok s ∧ s.term = { vis := 0, line := 1, col := 1, shape := 3, blink := 1 } := by
   refine ⟨_, rfl, ?_⟩; decide
+
+/-- `hide_show_roundtrip` is not vacuous: the focused window sits two levels below the window that is hidden and shown -/
+example : wfB deepChainTree = true := by decide
+example : cursorSpec deepChainTree = some (1, 2, 1) := by decide
+example : ∃ t1 t2, hideWin Fixes.all deepChainTree 1 = .ok t1 ∧ wfB t1 = true ∧ cursorSpec t1 = none ∧
+    showWin Fixes.all t1 1 = .ok t2 ∧ cursorSpec t2 = some (1, 2, 1) ∧ t2.root.needsRestore = true := by
+  refine ⟨_, _, rfl, ?_, ?_, rfl, ?_, ?_⟩ <;> decide
+/-- `restore_requested_reposition`: the focused window moves outside its parent; a restore is pending and the cursor has
+    to go -/
+example : ∃ t', reposition deepChainTree 3 20 40 = .ok t' ∧ t'.root.needsRestore = true ∧ cursorSpec t' = none := by
+  refine ⟨_, rfl, ?_, ?_⟩ <;> decide
 
 end Tickit.Props.C15
